@@ -983,7 +983,7 @@ fn typ_class(t: Option<&str>) -> &'static str {
   }
 }
 /// sd_hash alternatives with every disclosure presented (the 8th member of the quick tier's KB core tuple)
-const KB_HASHES: usize = 12;
+const KB_HASHES: usize = 14;
 fn kb_core_dims() -> [usize; 7] {
   [typ_alphabet().len(), 2, 5, 7, 5, 4, 2]
 }
@@ -1058,6 +1058,10 @@ fn kb_body(ctx: &Ctx, src: &mut Src, mk: &dyn Fn(Vec<u32>) -> Case, part: &'stat
     Padded,
     CaseFlipped,
     Reversed,
+    /// the first presented disclosure is presented a second time (at the end / right after itself); sd_hash is the
+    /// digest over the presentation without the repetition
+    RepeatedAtEnd,
+    RepeatedAdjacent,
   }
   let mut hashes = vec![
     Hash::Right,
@@ -1074,6 +1078,10 @@ fn kb_body(ctx: &Ctx, src: &mut Src, mk: &dyn Fn(Vec<u32>) -> Case, part: &'stat
   ];
   if n_presented >= 2 {
     hashes.push(Hash::Reversed);
+  }
+  if n_presented >= 1 {
+    hashes.push(Hash::RepeatedAtEnd);
+    hashes.push(Hash::RepeatedAdjacent);
   }
   // part (d), quick tier: the sd_hash alternative is the 8th member of the core tuple
   let hash = match src.core {
@@ -1132,7 +1140,7 @@ fn kb_body(ctx: &Ctx, src: &mut Src, mk: &dyn Fn(Vec<u32>) -> Case, part: &'stat
   } else {
     compact(&json!({"alg": "EdDSA", "typ": "JWT", "kid": "did:vx:issuer#m1"}), &built.payload, &built.payload, w.key(1))
   };
-  let disclosures = present(&built.disclosures, &presented, Tamper::None);
+  let mut disclosures = present(&built.disclosures, &presented, Tamper::None);
 
   // ---- sd_hash (own SHA-256 + base64url over "<jwt>~<d1>~...~<dn>~"; with n = 0 the library's own presentation
   //      format is "<jwt>~~", the specification's is "<jwt>~": both are produced, neither is judged for n = 0)
@@ -1174,6 +1182,16 @@ fn kb_body(ctx: &Ctx, src: &mut Src, mk: &dyn Fn(Vec<u32>) -> Case, part: &'stat
       let mut r = disclosures.clone();
       r.reverse();
       Some(over(&r))
+    }
+    Hash::RepeatedAtEnd | Hash::RepeatedAdjacent => {
+      let h = over(&disclosures);
+      let first = disclosures[0].clone();
+      if matches!(hash, Hash::RepeatedAtEnd) {
+        disclosures.push(first);
+      } else {
+        disclosures.insert(1, first);
+      }
+      Some(h)
     }
   };
 
@@ -1336,6 +1354,7 @@ fn kb_body(ctx: &Ctx, src: &mut Src, mk: &dyn Fn(Vec<u32>) -> Case, part: &'stat
       Hash::Padded => drop(f.insert("sd_hash:digest-with-padding".into())),
       Hash::CaseFlipped => drop(f.insert("sd_hash:digest-with-one-letter-in-other-case".into())),
       Hash::Reversed => drop(f.insert("sd_hash:over-reversed-disclosures".into())),
+      Hash::RepeatedAtEnd | Hash::RepeatedAdjacent => drop(f.insert("sd_hash:over-the-presentation-without-its-repeated-disclosure".into())),
     }
     if let Some(n) = nonce_opt {
       match nonce_claim {
